@@ -80,7 +80,7 @@ func TestLexRapid(t *testing.T) {
 			t.Skip()
 		}
 		if msg := checkLex(src); msg != "" && !knownLex(src, msg) {
-			t.Fatalf("%s for %q", msg, src)
+			t.Fatalf("%s for %q hex=%x;", msg, src, src)
 		}
 	})
 }
@@ -100,7 +100,7 @@ func FuzzLex(f *testing.F) {
 			return
 		}
 		if msg := checkLex(src); msg != "" && !knownLex(src, msg) {
-			t.Fatalf("%s for %q", msg, src)
+			t.Fatalf("%s for %q hex=%x;", msg, src, src)
 		}
 	})
 }
